@@ -4,7 +4,7 @@
    table; and every connection a pool holds goes to that pool's address. *)
 From RcProxy Require Import Base.Bytes Base.Dec Gen.Generated Spec.RespGrammar
   Model.RespBuf Model.Commands Model.Crc16 Model.ClientCodec Model.ClientFeed Model.ServerCodec Model.Route
-  Model.Cluster Model.Proxy Proofs.ProxyProofs Proofs.ProxyServerProofs Proofs.ProxyWireProofs Proofs.ProxyOrderProofs.
+  Model.Cluster Model.Proxy Proofs.ProxyProofs Proofs.ProxyServerProofs Proofs.ProxyWireProofs Proofs.ProxyLivenessProofs Proofs.ProxyOrderProofs.
 From Coq Require Import ZifyN ZifyNat ZifyBool.
 Open Scope N_scope.
 
@@ -12,9 +12,14 @@ Definition pool_ok (st : pst) (p : ppool) : Prop :=
   forall s, In s (pp_conns p) -> (s < next_sid st)%nat /\ (forall sv, lookup s (servers st) = Some sv -> ps_addr sv = pp_addr p).
 Definition PInv (st : pst) : Prop := Forall (pool_ok st) (pools st).
 
+(* routed st mid slot addr: the request exists and its routing record (the owner of each of its
+   slots in the slot table in force when OnCReact routed it) says addr for this slot *)
+Definition routed (st : pst) (mid : nat) (slot : N) (addr : bytes) : Prop :=
+  exists m, lookup mid (msgs st) = Some m /\ In (slot, Some addr) (pm_route m).
+
 Definition AInv (st : pst) : Prop :=
   forall s sv mid slot, lookup s (servers st) = Some sv -> In (FReq mid slot) (wire sv) ->
-    okey st (FReq mid slot) <> None -> slot_master st slot = Some (ps_addr sv).
+    okey st (FReq mid slot) <> None -> routed st mid slot (ps_addr sv).
 
 Definition RInv (st : pst) : Prop := PInv st /\ AInv st /\ (forall s sv, lookup s (servers st) = Some sv -> (s < next_sid st)%nat).
 
@@ -76,11 +81,14 @@ Qed.
 Lemma slot_master_stable st st' slot : slots st' = slots st -> slot_master st' slot = slot_master st slot.
 Proof. intro E. unfold slot_master. rewrite E. reflexivity. Qed.
 
-Lemma RInv_stable st st' : WInv st -> stable st st' -> kext st st' -> RInv st -> RInv st'.
+Lemma routed_ext st st' mid slot addr : msg_ext (msgs st) (msgs st') -> routed st mid slot addr -> routed st' mid slot addr.
+Proof. intros He (m & Hm & Hin). destruct (He _ _ Hm) as (m' & A & _ & _ & _ & R). exists m'. rewrite R. auto. Qed.
+
+Lemma RInv_stable st st' : WInv st -> stable st st' -> kext st st' -> msg_ext (msgs st) (msgs st') -> RInv st -> RInv st'.
 Proof.
-  intros HW (Es & Ep & El & En) Hk (HP & HA & HN). split; [|split].
+  intros HW (Es & Ep & El & En) Hk Hme (HP & HA & HN). split; [|split].
   - unfold PInv in *. rewrite Ep. eapply Forall_impl; [|exact HP]. intros p Hp s Hs. rewrite Es, En. apply Hp, Hs.
-  - intros s sv mid slot Hs Hin Hkey. rewrite Es in Hs. rewrite (slot_master_stable st st') by exact El.
+  - intros s sv mid slot Hs Hin Hkey. rewrite Es in Hs. apply (routed_ext st st' _ _ _ Hme).
     apply (HA s sv mid slot Hs Hin).
     assert (Hkn : frag_known st (FReq mid slot)).
     { pose proof (wire_known st s sv HW Hs) as Hall. rewrite Forall_forall in Hall. apply Hall, Hin. }
@@ -90,7 +98,7 @@ Qed.
 
 Lemma RInv_rel st st' : WInv st -> stable st st' -> rel st st' -> RInv st -> RInv st'.
 Proof.
-  intros HW Hs R H. destruct HW as [HW1 HW2]. destruct (R HW2) as (_ & _ & _ & K & _).
+  intros HW Hs R H. destruct HW as [HW1 HW2]. destruct (R HW2) as (_ & Me & _ & K & _).
   apply (RInv_stable st st'); try assumption. split; assumption.
 Qed.
 
@@ -98,7 +106,7 @@ Qed.
 (* replacing the record of one connection, keeping its address *)
 Lemma RInv_set_server st s sv sv' :
   RInv st -> lookup s (servers st) = Some sv -> ps_addr sv' = ps_addr sv ->
-  (forall mid slot, In (FReq mid slot) (wire sv') -> okey st (FReq mid slot) <> None -> slot_master st slot = Some (ps_addr sv)) ->
+  (forall mid slot, In (FReq mid slot) (wire sv') -> okey st (FReq mid slot) <> None -> routed st mid slot (ps_addr sv)) ->
   RInv (set_server st s sv').
 Proof.
   intros (HP & HA & HN) Hs Ea Hw. split; [|split].
@@ -106,7 +114,7 @@ Proof.
     split; [exact A|]. intros svx Hl. cbn [set_server servers] in Hl. rewrite lookup_update in Hl.
     destruct (Nat.eqb_spec x s) as [->|]; [inversion Hl; subst; rewrite Ea; apply B, Hs | apply B, Hl].
   - intros x svx mid slot Hl Hin Hk. cbn [set_server servers] in Hl. rewrite lookup_update in Hl.
-    rewrite (okey_servers st) in Hk by reflexivity. rewrite (slot_master_stable st) by reflexivity.
+    rewrite (okey_servers st) in Hk by reflexivity.
     destruct (Nat.eqb_spec x s) as [->|]; [inversion Hl; subst; rewrite Ea; apply (Hw mid slot); assumption | eapply HA; eassumption].
   - intros x svx Hl. cbn [set_server servers next_sid] in *. rewrite lookup_update in Hl.
     destruct (Nat.eqb_spec x s) as [->|]; [eapply HN, Hs | eapply HN, Hl].
@@ -118,13 +126,13 @@ Proof.
   intros Es Ep El En Em (HP & HA & HN). split; [|split].
   - unfold PInv in *. rewrite Ep. eapply Forall_impl; [|exact HP]. intros p Hp s Hs. rewrite Es, En. apply Hp, Hs.
   - intros s sv mid slot Hs Hin Hk. rewrite Es in Hs. rewrite (okey_servers st st') in Hk by exact Em.
-    rewrite (slot_master_stable st st') by exact El. eapply HA; eassumption.
+    unfold routed. rewrite Em. eapply HA; eassumption.
   - intros s sv Hs. rewrite Es in Hs. rewrite En. eapply HN, Hs.
 Qed.
 
 Lemma enqueue_rinv st s f :
   RInv st ->
-  (forall sv mid slot, lookup s (servers st) = Some sv -> f = FReq mid slot -> okey st f <> None -> slot_master st slot = Some (ps_addr sv)) ->
+  (forall sv mid slot, lookup s (servers st) = Some sv -> f = FReq mid slot -> okey st f <> None -> routed st mid slot (ps_addr sv)) ->
   RInv (enqueue_out st s f).
 Proof.
   intros H Hf. unfold enqueue_out. destruct (lookup s (servers st)) as [sv|] eqn:Hs; [|exact H].
@@ -213,7 +221,7 @@ Proof.
     assert (R1 : RInv st1).
     { split; [|split].
       - unfold PInv in *. rewrite Epl. eapply Forall_impl; [|exact HP]. exact Hok1.
-      - intros x svx mid slot Hl Hin Hk. rewrite (okey_servers st st1) in Hk by exact Em. rewrite (slot_master_stable st st1) by exact Esl.
+      - intros x svx mid slot Hl Hin Hk. rewrite (okey_servers st st1) in Hk by exact Em. unfold routed. rewrite Em.
         destruct (Nat.eq_dec x s) as [->|Hne].
         + rewrite Hsv in Hl. inversion Hl; subst. rewrite Hw in Hin. destruct Hin.
         + apply (HA x svx mid slot); [apply Hiff; assumption | exact Hin | exact Hk].
@@ -285,15 +293,18 @@ Proof.
   rewrite E in A. rewrite Et in A. inversion A; subst. eexists. split; [reflexivity | exact B].
 Qed.
 
-Lemma fold_enqueue_rinv st0 mid : forall targets st, RInv st -> slots st = slots st0 -> targets_owned st0 st targets ->
+Lemma fold_enqueue_rinv st0 mid pm : forall targets st, RInv st -> lookup mid (msgs st) = Some pm ->
+  (forall t, In t targets -> In (fst t, slot_master st0 (fst t)) (pm_route pm)) ->
+  targets_owned st0 st targets ->
   RInv (fold_left (fun s (t : N * nat) => enqueue_out s (snd t) (FReq mid (fst t))) targets st).
 Proof.
-  induction targets as [|t ts IH]; intros st H Hsl Ho; cbn [fold_left]; [exact H|].
+  induction targets as [|t ts IH]; intros st H Hm Hr Ho; cbn [fold_left]; [exact H|].
   apply IH.
   - apply enqueue_rinv; [exact H|]. intros sv mid0 slot0 Hl Ef _. inversion Ef; subst.
     destruct (Ho t (or_introl eq_refl)) as (sv' & A & B). rewrite Hl in A. inversion A; subst.
-    rewrite (slot_master_stable st0 st) by exact Hsl. exact B.
-  - unfold enqueue_out. destruct (lookup (snd t) (servers st)); exact Hsl.
+    exists pm. split; [exact Hm|]. rewrite <- B. apply Hr. left; reflexivity.
+  - destruct (same_cm_enqueue_out st (snd t) (FReq mid (fst t))) as (_ & E & _). rewrite E. exact Hm.
+  - intros t' Ht'. apply Hr. right. exact Ht'.
   - apply targets_owned_enqueue. intros t' Ht'. apply Ho. right. exact Ht'.
 Qed.
 
@@ -318,8 +329,11 @@ Proof.
     { eapply RInv_rel; [exact W1 | | apply rel_new_msg | exact R1]. eapply stable_trans; [apply stable_set_msg | apply stable_bump_mid]. }
     match goal with |- RInv (match lookup c (clients ?x) with _ => _ end) => set (st3 := x) end.
     assert (R3 : RInv st3).
-    { unfold st3. apply (fold_enqueue_rinv st1); [exact R2 | reflexivity|]. intros t Hin. destruct (Ht t Hin) as (sv & A & B).
-      exists sv. split; [exact A|]. rewrite (slot_master_stable st st1) by exact Sl1. exact B. }
+    { unfold st3. apply (fold_enqueue_rinv st mid pm); [exact R2 | unfold st2; cbn [bump_mid set_msg msgs]; apply lookup_update_eq | | exact Ht].
+      intros t Hin. pose proof (resolve_slots _ _ _ _ Er) as Hslots.
+      assert (Hin2 : In (fst t) (map fst (by_slot (cm_body m)))) by (rewrite <- Hslots; apply in_map, Hin).
+      apply in_map_iff in Hin2. destruct Hin2 as (sf & Esf & Hsf). unfold pm. cbn [pm_route].
+      apply in_map_iff. exists sf. split; [rewrite Esf; reflexivity | exact Hsf]. }
     destruct (lookup c (clients st3)); [|exact R3].
     match goal with |- RInv (set_client ?x _ _) => apply (RInv_frame x); try reflexivity end. exact R3.
 Qed.
@@ -483,7 +497,7 @@ Qed.
 Theorem step_rw st e st' : RW st -> step st e = ROk st' -> RW st'.
 Proof.
   intros [HW H] E. split; [eapply step_winv; eassumption|]. revert E.
-  destruct e as [c adm|c b totals|order|s b|c|s| |s]; cbn [step].
+  destruct e as [c adm|c b totals|order|s b|c|s| |s|nodes newslots]; cbn [step].
   - destruct (lookup c (clients st)) eqn:Ec; intro E; apply ROk_inj in E; subst st'; [exact H|].
     match goal with |- RInv (set_client ?x _ _) => apply (RInv_frame x); try reflexivity end. exact H.
   - intro E; apply ROk_inj in E; subst st'. apply ensure_dials_rw. unfold client_data.
@@ -499,7 +513,21 @@ Proof.
   - intro E; apply ROk_inj in E; subst st'. unfold timeout_scan.
     apply (RInv_frame (expire st (inflight st))); try reflexivity.
     apply (RInv_rel st); [exact HW | apply stable_expire | apply rel_expire | exact H].
-  - intro E; apply ROk_inj in E; subst st'. apply (RInv_frame st); try reflexivity. exact H.
+  - destruct (find_pool st s) as [p|] eqn:Efp; [|intro E; apply ROk_inj in E; subst st'; exact H].
+    destruct (find_pool_spec _ _ _ Efp) as [Hin _].
+    destruct (pool_get st p) as [st1 [s1|]] eqn:Eg; destruct (pool_get_rinv _ _ _ _ H (PInv_pool _ _ H Hin) Eg) as (A & _);
+      intro E; apply ROk_inj in E; subst st'; [|exact A].
+    apply (RInv_frame st1); try reflexivity. exact A.
+  - intro E; apply ROk_inj in E; subst st'. destruct H as (HP & HA & HN). split; [|split].
+    + unfold PInv, apply_topology. cbn [pools]. apply Forall_forall. intros q Hq.
+      apply in_concat in Hq. destruct Hq as (l & Hl & Hq). apply in_map_iff in Hl. destruct Hl as (p & <- & Hp).
+      unfold PInv in HP. rewrite Forall_forall in HP. specialize (HP p Hp).
+      unfold topology_pool in Hq. destruct (node_role nodes (pp_addr p)) as [r|]; [|destruct Hq].
+      destruct (Bool.eqb r (pp_slave p)); destruct Hq as [<-|[]].
+      * exact HP.
+      * intros x Hx. destruct Hx.
+    + intros s sv mid slot Hs Hin Hk. exact (HA s sv mid slot Hs Hin Hk).
+    + exact HN.
 Qed.
 
 Theorem run_rw evs : forall st st', RW st -> run st evs = ROk st' -> RW st'.
@@ -524,7 +552,7 @@ Theorem delivered_to_the_owner c pools slots evs st s sv mid slot :
   run (init_state c pools slots) evs = ROk st -> lookup s (servers st) = Some sv ->
   In (FReq mid slot) (map fst (ps_written sv) ++ ps_outq sv) ->
   okey st (FReq mid slot) <> None ->            (* a fragment that was not redirected here by a node *)
-  slot_master st slot = Some (ps_addr sv).
+  routed st mid slot (ps_addr sv).
 Proof.
   intros Hp Hrun Hs Hin Hk. destruct (run_rw evs _ _ (init_rw c pools slots Hp) Hrun) as [_ (_ & HA & _)].
   eapply HA; eassumption.
@@ -537,4 +565,23 @@ Theorem pools_hold_their_own_connections c pools slots evs st p s sv :
 Proof.
   intros Hp Hrun Hin Hs Hl. destruct (run_rw evs _ _ (init_rw c pools slots Hp) Hrun) as [_ R].
   destruct (PInv_pool _ _ R Hin s Hs) as [_ B]. apply B, Hl.
+Qed.
+
+(* what the routing record is: the owners, in the slot table in force at that moment, of the slots of
+   the request - written once, when OnCReact has found a connection for every fragment *)
+Theorem routing_record_is_the_slot_table st c m st1 targets :
+  (N.eqb (cm_type m) UNKNOWN || (Sentinel <=? cm_type m))%bool = false ->
+  N.eqb (cm_type m) ReqTooLarge = false -> N.eqb (cm_type m) ReqWrongArgumentsNumber = false ->
+  N.eqb (cm_type m) ReqPing = false -> N.eqb (cm_type m) ReqQuit = false -> N.eqb (cm_type m) ReqAuth = false ->
+  resolve st (by_slot (cm_body m)) = (st1, inl targets) ->
+  exists pm, lookup (next_mid st1) (msgs (on_request st c m)) = Some pm /\
+             pm_route pm = map (fun sf => (fst sf, slot_master st (fst sf))) (by_slot (cm_body m)).
+Proof.
+  intros T1 T2 T3 T4 T5 T6 Er. unfold on_request. rewrite T1, T2, T3, T4, T5, T6, Er.
+  match goal with |- context [set_msg st1 (next_mid st1) ?x] => set (pm := x) end.
+  exists pm. split; [|reflexivity].
+  match goal with |- lookup _ (msgs (match lookup c (clients ?x) with _ => _ end)) = _ => set (st3 := x) end.
+  assert (E3 : msgs st3 = msgs (bump_mid (set_msg st1 (next_mid st1) pm))).
+  { unfold st3. destruct (fold_enqueue_same targets (next_mid st1) (bump_mid (set_msg st1 (next_mid st1) pm))) as (_ & E & _). exact E. }
+  destruct (lookup c (clients st3)); cbn [set_client msgs]; rewrite E3; cbn [bump_mid set_msg msgs]; apply lookup_update_eq.
 Qed.
